@@ -754,7 +754,72 @@ pub fn c09_clone_resume(s: &State) -> Vec<Failure> {
         check!("traverse", id.traverse(&s.arena), 2 * fuel);
         check!("reverse_traverse", id.reverse_traverse(&s.arena), 2 * fuel);
     }
+    // clone_from: an iterator made for one start node and partly consumed, overwritten with one made for
+    // another start node and partly consumed, continues exactly like the source (a type that writes its
+    // own clone_from must copy every field) and leaves the source untouched
+    let live: Vec<usize> = s.model.live_slots();
+    macro_rules! check_cf {
+        ($name:expr, $mk:expr, $fuel:expr) => {{
+            let r = guarded(|| clone_from_probe(&$mk, &live, $fuel));
+            if let Ok(Some((x, y, d))) = r {
+                out.push(fail(C09, "traversal", false, $name, s.model.position(y), "clone_from-does-not-resume",
+                    format!("{}({}) overwritten by clone_from with {}({}): {}", $name, x + 1, $name, y + 1, d)));
+            }
+        }};
+    }
+    let a = &s.arena;
+    check_cf!("ancestors", |x: usize| s.cur[x].ancestors(a), fuel);
+    check_cf!("predecessors", |x: usize| s.cur[x].predecessors(a), fuel);
+    check_cf!("preceding_siblings", |x: usize| s.cur[x].preceding_siblings(a), fuel);
+    check_cf!("following_siblings", |x: usize| s.cur[x].following_siblings(a), fuel);
+    check_cf!("children", |x: usize| s.cur[x].children(a), fuel);
+    check_cf!("reverse_children", |x: usize| s.cur[x].reverse_children(a), fuel);
+    check_cf!("descendants", |x: usize| s.cur[x].descendants(a), fuel);
+    check_cf!("traverse", |x: usize| s.cur[x].traverse(a), 2 * fuel);
+    check_cf!("reverse_traverse", |x: usize| s.cur[x].reverse_traverse(a), 2 * fuel);
     out
+}
+
+/// `dst.clone_from(&src)` for every pair of start nodes and every consumed prefix of the source (the
+/// destination fresh, one element in, and exhausted): what dst then yields, what src still yields, and
+/// what a second clone_from onto an exhausted destination yields.
+fn clone_from_probe<I, F>(mk: &F, live: &[usize], fuel: usize) -> Option<(usize, usize, String)>
+where
+    I: Iterator + Clone,
+    I::Item: PartialEq + std::fmt::Debug + Clone,
+    F: Fn(usize) -> I,
+{
+    for &y in live {
+        let full: Vec<I::Item> = pull(mk(y), fuel).0;
+        for &x in live {
+            let dst_len = pull(mk(x), fuel).0.len();
+            let mut dst_prefixes = vec![0usize, 1, dst_len + 1];
+            dst_prefixes.dedup();
+            for ks in 0..=full.len() {
+                for &kd in &dst_prefixes {
+                    let mut dst = mk(x);
+                    for _ in 0..kd {
+                        dst.next();
+                    }
+                    let mut src = mk(y);
+                    for _ in 0..ks {
+                        src.next();
+                    }
+                    dst.clone_from(&src);
+                    let got: Vec<I::Item> = pull(dst, fuel).0;
+                    let rest = &full[ks..];
+                    if got[..] != rest[..] {
+                        return Some((x, y, format!("destination {kd} elements in, source {ks} elements in: the destination then yields {:?}, the source's remaining sequence is {:?}", got, rest)));
+                    }
+                    let still: Vec<I::Item> = pull(src, fuel).0;
+                    if still[..] != rest[..] {
+                        return Some((x, y, format!("source {ks} elements in: after being the argument of clone_from it yields {:?} instead of {:?}", still, rest)));
+                    }
+                }
+            }
+        }
+    }
+    None
 }
 
 // ------------------------------------------------------------------------------------
@@ -1685,6 +1750,12 @@ pub fn c16_roundtrip(s: &State) -> Result<Arena<Payload>, Failure> {
                 format!("round trip through {how} failed: {e}; text: {js}"))),
         }
     }
+    // the arena as part of the caller's own types (JSON): a field among others, a flattened field (serde
+    // routes the entries by the field names the Deserialize impl declares), the three enum taggings that
+    // buffer the content, Option, tuple, map value
+    if let Some((how, why)) = embedded_roundtrips(a) {
+        return Err(fail(C16, "serde", false, "roundtrip-embedded", "-", "copy-differs", format!("round trip of the arena {how}: {why}")));
+    }
     // second format: the token stream (non-self-describing, sequence-based)
     match crate::tokens::roundtrip(a) {
         Ok(c) => {
@@ -1710,6 +1781,70 @@ pub fn c16_roundtrip(s: &State) -> Result<Arena<Payload>, Failure> {
         }
     }
     Ok(b)
+}
+
+#[cfg(feature = "it-deser")]
+fn embedded_roundtrips(a: &Arena<Payload>) -> Option<(&'static str, String)> {
+    use serde::{de::DeserializeOwned, Deserialize, Serialize};
+    #[derive(Serialize, Deserialize)]
+    struct Field {
+        before: u8,
+        arena: Arena<Payload>,
+        after: Vec<Arena<Payload>>,
+    }
+    #[derive(Serialize, Deserialize)]
+    struct Flat {
+        label: String,
+        #[serde(flatten)]
+        arena: Arena<Payload>,
+        trailer: u8,
+    }
+    #[derive(Serialize, Deserialize)]
+    #[serde(tag = "kind")]
+    enum Internal {
+        Forest(Arena<Payload>),
+    }
+    #[derive(Serialize, Deserialize)]
+    #[serde(tag = "kind", content = "body")]
+    enum Adjacent {
+        Forest(Arena<Payload>),
+    }
+    #[derive(Serialize, Deserialize)]
+    #[serde(untagged)]
+    enum Untagged {
+        Number(u64),
+        Forest(Arena<Payload>),
+    }
+    fn rt<W: Serialize + DeserializeOwned>(w: &W) -> Result<W, String> {
+        let js = serde_json::to_string(w).map_err(|e| format!("serialising failed: {e}"))?;
+        serde_json::from_str(&js).map_err(|e| format!("deserialising failed: {e}; text: {js}"))
+    }
+    let same = |c: &Arena<Payload>| c == a && format!("{:?}", c) == format!("{:?}", a);
+    let diff = |c: &Arena<Payload>| format!("copy differs: original {:?}, copy {:?}", a, c);
+    macro_rules! probe {
+        ($how:expr, $w:expr, $get:expr) => {
+            match rt(&$w) {
+                Ok(w) => {
+                    let get = $get;
+                    let copies: Vec<Arena<Payload>> = get(&w);
+                    for c in &copies {
+                        if !same(c) {
+                            return Some(($how, diff(c)));
+                        }
+                    }
+                }
+                Err(e) => return Some(($how, e)),
+            }
+        };
+    }
+    probe!("as a field of a struct", Field { before: 1, arena: a.clone(), after: vec![a.clone(), a.clone()] }, |w: &Field| vec![w.arena.clone(), w.after[0].clone(), w.after[1].clone()]);
+    probe!("as a #[serde(flatten)] field", Flat { label: "x".into(), arena: a.clone(), trailer: 7 }, |w: &Flat| vec![w.arena.clone()]);
+    probe!("in an internally tagged enum", Internal::Forest(a.clone()), |w: &Internal| { let Internal::Forest(c) = w; vec![c.clone()] });
+    probe!("in an adjacently tagged enum", Adjacent::Forest(a.clone()), |w: &Adjacent| { let Adjacent::Forest(c) = w; vec![c.clone()] });
+    probe!("in an untagged enum", Untagged::Forest(a.clone()), |w: &Untagged| match w { Untagged::Forest(c) => vec![c.clone()], Untagged::Number(_) => vec![Arena::new(); usize::from(a.count() > 0)] });
+    probe!("in an Option and a tuple", (Some(a.clone()), 5u8, a.clone()), |w: &(Option<Arena<Payload>>, u8, Arena<Payload>)| vec![w.0.clone().unwrap_or_default(), w.2.clone()]);
+    probe!("as a map value", std::collections::BTreeMap::from([("k".to_string(), a.clone())]), |w: &std::collections::BTreeMap<String, Arena<Payload>>| w.values().cloned().collect::<Vec<_>>());
+    None
 }
 
 #[cfg(feature = "it-deser")]
@@ -1844,6 +1979,49 @@ pub fn c17_par_arena(arena: &Arena<Payload>) -> Vec<Failure> {
             Ok((par, cnt, _)) => out.push(fail(C17 | C18, "par_iter", false, "par_iter", "-", "differs-from-iter",
                 format!("par_iter() in a pool of {} thread(s) visits {} nodes ({} by count()), iter() visits {}; same references in the same order: {}", [1, 2, 16][i], par.len(), cnt, seq.len(), par == seq))),
             Err(m) => out.push(fail(C17 | C18, "par_iter", false, "par_iter", "-", "panicked", format!("par_iter panicked: {m}"))),
+        }
+    }
+    // a reader gives the same answers inside a par_iter closure (on a pool worker, beside other workers) as
+    // on the calling thread: every reader script from the node it was handed, get_node_id of that node, of
+    // the nodes of another (equal) arena and of a copy of the node on the worker's own stack
+    let other = s.arena.clone();
+    let observe = |n: &indextree::Node<Payload>| -> u64 {
+        let id = s.arena.get_node_id(n);
+        let foreign: Vec<Option<NodeId>> = other.iter().take(6).chain(other.iter().rev().take(2)).map(|m| s.arena.get_node_id(m)).collect();
+        let on_stack = n.clone();
+        let mut t = format!("{:?}|{:?}|{:?}", id, foreign, s.arena.get_node_id(&on_stack));
+        if let Some(id) = id {
+            if !n.is_removed() {
+                // (the accessor and lookup scripts; the traversal scripts are the business of the
+                // interleaving exploration)
+                for kind in [9usize, 11] {
+                    t.push_str(&format!("{:?}", crate::readers::solo(s.arena, kind, id, 6)));
+                }
+            }
+        }
+        obs::hash64(&t)
+    };
+    match guarded(|| s.arena.iter().map(observe).collect::<Vec<u64>>()) {
+        Err(m) => out.push(fail(C11 | C18, "par_iter", false, "readers", "-", "panicked", format!("a reader on the calling thread panicked: {m}"))),
+        Ok(seq) => {
+            for (i, pool) in pools.iter().enumerate() {
+                let r = guarded(|| {
+                    let par: Vec<u64> = pool.install(|| s.arena.par_iter().map(observe).collect());
+                    let (a, b) = pool.install(|| rayon::join(|| s.arena.iter().map(observe).collect::<Vec<u64>>(), || s.arena.iter().rev().map(observe).collect::<Vec<u64>>()));
+                    (par, a, b)
+                });
+                match r {
+                    Ok((par, a, mut b)) => {
+                        b.reverse();
+                        if par != seq || a != seq || b != seq {
+                            out.push(fail(C17 | C18, "par_iter", false, "readers-in-par_iter", "-", "worker-observes-something-else",
+                                format!("readers run inside par_iter closures / rayon::join in a pool of {} thread(s) observe something else than on the calling thread (par_iter equal: {}, join equal: {} / {}); arena {:?}", [1, 2, 16][i], par == seq, a == seq, b == seq, s.arena)));
+                        }
+                    }
+                    Err(m) => out.push(fail(C17 | C18, "par_iter", false, "readers-in-par_iter", "-", "panicked",
+                        format!("a reader that returns on the calling thread panicked inside a par_iter closure / rayon::join in a pool of {} thread(s): {m}; arena {:?}", [1, 2, 16][i], s.arena))),
+                }
+            }
         }
     }
     out
